@@ -26,7 +26,8 @@ ASSUMPTIONS = [
     "ensemble members are finite; only observations may be NaN",
 ]
 OBLIGATIONS = {"m=1": 20, "m=2": 20, "ties": 20, "all-below": 20, "all-above": 20,
-               "constant-ens": 20, "nan-obs": 20, "float": 20, "n=1": 10}
+               "constant-ens": 20, "nan-obs": 20, "float": 20, "n=1": 10,
+               "long-record": 1}
 
 
 def crps_fn():
@@ -294,6 +295,12 @@ def run_case(ctx, case, rng=None):
     # positive scaling: power of two (exact) and generic
     f2 = float(2.0 ** rng.integers(-8, 9))
     same("scale-pow2", decomp(crps(yin * f2, x * f2))[0], factor=f2, tolrel=1e-12)
+    # very small / very large units (exact power-of-two factors): every component
+    # must scale linearly, whatever the magnitude of the data
+    for e2 in (-45, 45):
+        fx = float(2.0 ** e2)
+        same(f"scale-2^{e2}", decomp(crps(yin * fx, x * fx))[0], factor=fx,
+             tolrel=1e-12)
     f3 = float(rng.uniform(0.1, 37.0))
     same("scale", decomp(crps(yin * f3, x * f3))[0], factor=f3, tolrel=1e-10)
     # rows with a missing observation are ignored
@@ -302,7 +309,39 @@ def run_case(ctx, case, rng=None):
     ctx.api("crps", 5 + (nanmask is not None))
 
 
+def run_long_record(ctx, n, m, seed):
+    """one long record (the pairwise uncertainty term is O(n^2)): definition,
+    identities and the climatological uncertainty for tens of thousands of
+    forecasts"""
+    crps = crps_fn()
+    r = np.random.default_rng(seed)
+    y = r.integers(-200, 200, size=n) / 4.0
+    x = r.integers(-200, 200, size=(n, m)) / 4.0
+    ctx.evaluated()
+    ctx.tag("long-record")
+    ctx.api("crps")
+    d, _ = decomp(crps(y, x))
+    c, rel, res, unc, pot = d
+    ref = float(crps_exact_lattice_fast(np.round(y * 4).astype(np.int64),
+                                        np.round(x * 4).astype(np.int64), 4))
+    uref = uncertainty_ref(y)
+    case = {"kind": "long", "n": n, "m": m, "seed": seed}
+    ctx.check("crps.definition", abs(c - ref) <= 1e-9 * abs(ref), "crps|definition|long",
+              case, {"crps": c, "definition": ref})
+    ctx.check("crps.uncertainty-climatology", abs(unc - uref) <= 1e-9 * abs(uref)
+              and unc >= 0, "crps|uncertainty|long", case,
+              {"uncertainty": unc, "ref": uref, "n": n})
+    ctx.check("crps.reli+pot", abs(c - (rel + pot)) <= 1e-11 * abs(c) and
+              abs(res - (unc - pot)) <= 1e-11 * abs(unc), "crps|identities|long", case,
+              {"decomposition": d.tolist()})
+    ctx.nontrivial("long", n, m, seed)
+
+
 def run(ctx):
+    if ctx.shard == 0:
+        run_long_record(ctx, 46500, 2, ctx.seed)
+    if ctx.shard == 1 and ctx.tier == "thorough":
+        run_long_record(ctx, 70000, 3, ctx.seed + 1)
     rng = ctx.rng(1)
     ncase = 400 if ctx.tier == "quick" else 10000
     for it in range(ncase):
@@ -319,4 +358,7 @@ def run(ctx):
 
 
 def replay(ctx, case):
-    run_case(ctx, case)
+    if case.get("kind") == "long":
+        run_long_record(ctx, int(case["n"]), int(case["m"]), int(case["seed"]))
+    else:
+        run_case(ctx, case)
